@@ -331,6 +331,7 @@ HELPERS = [
                    'EventBus.emit_sync', 'EventBus._get_listeners_for_event', 'EventBus._remove_callback', 'Event',
                    'ConnectionStateChangedEvent', 'PeerInitializedEvent', 'MessageReceivedEvent']),
     ('utils.py', ['ticket_generator', 'task_counter']),
+    ('log_utils.py', ['ConnectionLoggerAdapter']),
     ('exceptions.py', ['AioSlskException', 'NetworkError', 'PeerConnectionError', 'ConnectionFailedError', 'ListeningConnectionFailedError',
                        'ConnectionReadError', 'ConnectionWriteError', 'MessageSerializationError', 'MessageDeserializationError']),
     ('settings.py', ['PeerSettings', 'ListeningSettings']),
@@ -388,6 +389,12 @@ def fingerprints(src: Path) -> dict:
             continue
         for item in items:
             out[f'helper:{fname}:{item}'] = _digest(_lookup(tree, item))
+    # which methods / class attributes the connection classes define at all (identity semantics: no __eq__ / __hash__ ...)
+    tree = ast.parse((src / 'aioslsk' / 'network' / 'connection.py').read_text())
+    for cls in ('Connection', 'ListeningConnection', 'DataConnection', 'ServerConnection', 'PeerConnection'):
+        c = find_class(tree, cls)
+        names = sorted(n.name for n in c.body if isinstance(n, (ast.FunctionDef, ast.AsyncFunctionDef))) + ['bases:' + ','.join(ast.unparse(b) for b in c.bases)]
+        out[f'members:{cls}'] = hashlib.sha256('|'.join(names).encode()).hexdigest()[:16]
     return out
 
 
